@@ -460,6 +460,37 @@ fn run_case(c: &Case) -> CaseOut {
                 }
             }
             bump(&mut stats, "input_bytes_full", c.input.len());
+            if let Some(b) = &c.input2 {
+                // a second layout of the same tokens: both through the closed model, and the premises of the layout
+                // theorem evaluated on the pair by the driver
+                let (real_out2, _) = stages::run_real(b, &c.cfg, &[]);
+                let lexed2 = {
+                    use pasfmt_core::prelude::*;
+                    DelphiLexer {}.lex(b)
+                };
+                for t in lexed2 {
+                    use pasfmt_core::prelude::*;
+                    if matches!(t.get_token_type(), RawTokenType::Comment(_)) {
+                        if let Some(rest) = t.get_content().strip_prefix("//") {
+                            let rest = rest.strip_prefix('/').unwrap_or(rest);
+                            if let Some(ch) = rest.chars().next() {
+                                if !ch.is_ascii() && ch.is_alphanumeric() {
+                                    let h = proto::hex(ch.to_string().as_bytes());
+                                    if !alnum.contains(&h) {
+                                        alnum.push(h);
+                                    }
+                                }
+                            }
+                        }
+                    }
+                }
+                return CaseOut {
+                    in_line: format!("full2\t{}\t{}\t{}\t{}", c.cfg.to_proto(), proto::hex(c.input.as_bytes()), proto::hex(b.as_bytes()), proto::list(&alnum)),
+                    exp_line: format!("out={}\tout2={}", proto::hex(&real_out), proto::hex(&real_out2)),
+                    oracle_failures,
+                    stats,
+                };
+            }
             CaseOut {
                 in_line: format!("full\t{}\t{}\t{}", c.cfg.to_proto(), proto::hex(c.input.as_bytes()), proto::list(&alnum)),
                 exp_line: format!("out={}", proto::hex(&real_out)),
